@@ -171,6 +171,7 @@ def run_seq_node(a5mod, seam, spec):
 class Plan:
     name = 'plan'
     wants_hot = False
+    wants_novel = False
 
     def start(self, runnable):
         return runnable[0]
@@ -235,6 +236,34 @@ class RandomWalkHot(Plan):
 
     def describe(self):
         return {'plan': 'rwh', 'p_hot': self.p_hot, 'p_cold': self.p_cold}
+
+
+class RandomWalkNovel(Plan):
+    """Random walk that prefers to switch at lines this node has never executed
+    before (cold paths: first fill of a lazily built cache, first use of a
+    branch).  Two threads on the same cold key then overtake each other inside
+    the fill."""
+    name = 'rwn'
+    wants_novel = True
+
+    def __init__(self, rng, p_novel, p_old):
+        self.rng, self.p_novel, self.p_old = rng, p_novel, p_old
+        self.novel_now = False
+
+    def start(self, runnable):
+        return self.rng.choice(runnable)
+
+    def preempt(self, t, tstep, gstep, runnable):
+        p = self.p_novel if self.novel_now else self.p_old
+        if p > 0 and len(runnable) > 1 and self.rng.random() < p:
+            return self.rng.choice([x for x in runnable if x != t])
+        return None
+
+    def handoff(self, runnable):
+        return self.rng.choice(runnable)
+
+    def describe(self):
+        return {'plan': 'rwn', 'p_novel': self.p_novel, 'p_old': self.p_old}
 
 
 class PCT(Plan):
@@ -407,6 +436,8 @@ def make_plan(spec, rng, nthreads, est_len):
         return RandomWalk(rng, spec['p'])
     if k == 'rwh':
         return RandomWalkHot(rng, spec['p_hot'], spec['p_cold'])
+    if k == 'rwn':
+        return RandomWalkNovel(rng, spec['p_novel'], spec['p_old'])
     if k == 'pct':
         return PCT(rng, nthreads, spec['d'], est_len)
     if k == 'one':
@@ -519,6 +550,7 @@ class Sched:
         self.seam = seam
         self.hot = hot if (hot and plan.wants_hot) else None
         self.prev_hot = [False] * len(thread_calls)
+        self.seen_lines = set() if plan.wants_novel else None
         self.a5 = a5mod
         self.calls = thread_calls
         self.n = len(thread_calls)
@@ -599,6 +631,10 @@ class Sched:
             h = (code.co_filename, pos) in self.hot
             self.plan.hot_now = h or self.prev_hot[t]
             self.prev_hot[t] = h
+        if self.seen_lines is not None:
+            key = (code, pos)
+            self.plan.novel_now = key not in self.seen_lines
+            self.seen_lines.add(key)
         # one consultation per step; a thread that was preempted here executes this
         # step unconditionally when it gets the baton back (guaranteed progress)
         target = self.plan.preempt(t, self.tsteps[t], self.steps, self.runnable())
